@@ -208,6 +208,10 @@ harnesses! {
     w19_comment_grow, unwind = 14, raw = 7, |r| check_indent_step(r, 4, true);
     w19_two_starts_c124, unwind = 14, raw = 7, |r| check_indent_two_starts(r, 124);
     w19_two_starts_c128, unwind = 14, raw = 7, |r| check_indent_two_starts(r, 128);
+    w19_two_starts_c110, unwind = 14, raw = 7, |r| check_indent_two_starts(r, 110);
+    w19_two_starts_c119, unwind = 14, raw = 7, |r| check_indent_two_starts(r, 119);
+    w19_two_starts_c120, unwind = 14, raw = 7, |r| check_indent_two_starts(r, 120);
+    w19_two_starts_c127, unwind = 14, raw = 7, |r| check_indent_two_starts(r, 127);
     w8_start_n3, unwind = 6, raw = 4, |r| check_writer_table::<3>(r, 0);
     w8_end_n3, unwind = 6, raw = 4, |r| check_writer_table::<3>(r, 1);
     w8_empty_n3, unwind = 6, raw = 4, |r| check_writer_table::<3>(r, 2);
